@@ -41,6 +41,12 @@ pub struct Chain {
 	pub fees_paid: u64,
 	pub stats_validated: u64,
 	pub stats_conflicts: u64,
+	/// mempool policy: a transaction replaces conflicting mempool transactions only if it pays a higher
+	/// feerate than each of them (set together with the miner's fee policy; otherwise the last one relayed wins)
+	pub replace_by_fee: bool,
+	/// transactions that replace whatever they conflict with (the cheater's own, which nobody bumps)
+	pub replace_exempt: HashSet<Txid>,
+	pub stats_replacements_refused: u64,
 	nonce: u32,
 }
 
@@ -52,7 +58,7 @@ pub const BASE_HEIGHT: u32 = 800_000;
 impl Chain {
 	pub fn new() -> Chain {
 		let genesis = bitcoin::constants::genesis_block(Network::Regtest);
-		let mut c = Chain { blocks: vec![], all_outputs: HashMap::new(), utxos: HashMap::new(), spent: HashMap::new(), mempool: vec![], seen: HashSet::new(), confirmed_at: HashMap::new(), fees_paid: 0, stats_validated: 0, stats_conflicts: 0, nonce: 0 };
+		let mut c = Chain { blocks: vec![], all_outputs: HashMap::new(), utxos: HashMap::new(), spent: HashMap::new(), mempool: vec![], seen: HashSet::new(), confirmed_at: HashMap::new(), fees_paid: 0, stats_validated: 0, stats_conflicts: 0, replace_by_fee: false, replace_exempt: HashSet::new(), stats_replacements_refused: 0, nonce: 0 };
 		c.blocks.push(Block { header: genesis.header, height: BASE_HEIGHT, txs: vec![] });
 		c
 	}
@@ -158,8 +164,24 @@ impl Chain {
 				for (k, o) in tx.output.iter().enumerate() {
 					self.all_outputs.insert(OutPoint { txid, vout: k as u32 }, o.clone());
 				}
-				// replace mempool transactions spending the same inputs (last relayed wins)
+				// replace mempool transactions spending the same inputs (last relayed wins, or – under a fee
+				// policy – only a transaction paying a higher feerate than everything it would replace)
 				let ins: HashSet<OutPoint> = tx.input.iter().map(|i| i.previous_output).collect();
+				if self.replace_by_fee && !self.replace_exempt.contains(&txid) {
+					let rate = |t: &Transaction, all: &HashMap<OutPoint, TxOut>| -> u64 {
+						let inv: u64 = t.input.iter().map(|i| all.get(&i.previous_output).map(|o| o.value.to_sat()).unwrap_or(0)).sum();
+						let outv: u64 = t.output.iter().map(|o| o.value.to_sat()).sum();
+						inv.saturating_sub(outv) * 1_000_000 / t.weight().to_wu().max(1)
+					};
+					let mine = rate(tx, &self.all_outputs);
+					let best_rival = self.mempool.iter().filter(|m| m.input.iter().any(|i| ins.contains(&i.previous_output))).map(|m| rate(m, &self.all_outputs)).max();
+					if let Some(r) = best_rival {
+						if mine <= r {
+							self.stats_replacements_refused += 1;
+							return v;
+						}
+					}
+				}
 				self.mempool.retain(|m| !m.input.iter().any(|i| ins.contains(&i.previous_output)));
 				self.mempool.push(tx.clone());
 			},
